@@ -138,6 +138,17 @@ func TestC10Endpoints(t *testing.T) {
 						c.Class("conflicting-host-and-header")
 					}
 				}
+				// headers a hostile client may add: piko's own inter-node marker, hop-by-hop tricks
+				switch c.Pick("extraHeader", 6) {
+				case 0:
+					req.Header.Set("x-piko-forward", "true")
+					c.Class("client-sends-forward-marker")
+				case 1:
+					req.Header.Set("Connection", "x-piko-endpoint")
+				case 2:
+					req.Header.Set("x-piko-forward", "true")
+					req.Header.Set("Connection", "x-piko-forward, x-piko-endpoint")
+				}
 				if c.Bool("xPikoAuth") {
 					req.Header.Set("x-piko-authorization", "Bearer "+tok)
 				} else {
